@@ -261,16 +261,16 @@ class FTPFile(io.RawIOBase):
 
     def readline(self, size=None):
         # type: (Optional[int]) -> bytes
-        return next(line_iterator(self, size))  # type: ignore
+        return next(line_iterator(self, size), b"")  # type: ignore
 
     def readlines(self, hint=-1):
-        # type: (int) -> List[bytes]
+        # type: (Optional[int]) -> List[bytes]
         lines = []
         size = 0
         for line in line_iterator(self):  # type: ignore
             lines.append(line)
             size += len(line)
-            if hint != -1 and size > hint:
+            if hint is not None and 0 < hint < size:
                 break
         return lines
 
